@@ -59,6 +59,8 @@ def run(ctx):
         for u in families.all_member_units(M):
             rule_mark(ctx, u)
             rule_stop(ctx, u)
+            from . import flow as _flow
+            _flow.rule_final_values(ctx, u.bi, "C03.STOP", u.where)
             rule_latch(ctx, u)
         rule_maybe_done(ctx, M)
         from . import c19
